@@ -255,7 +255,7 @@ func termHard(t *Term, seen map[*Term]bool) bool {
 		return false
 	}
 	seen[t] = true
-	if hardOps[t.op] || (t.op == "bvmul" && t.w >= 32) {
+	if hardOps[t.op] {
 		return true
 	}
 	for _, a := range t.args {
@@ -512,6 +512,9 @@ func (r *Run) newNondet(w int) *Term {
 		}
 		r.pinPos++
 		r.pinEnv[name] = v
+		if w == 0 {
+			return mkBool(v&1 == 1)
+		}
 		return mkConst(w, v)
 	}
 	return t
